@@ -316,7 +316,7 @@ Lemma discard b0 h : let s := state_of (init b0) h in
 Proof.
   intros s s'. subst s'. cbn [step]. destruct (flushed s) eqn:E; cbn [fst snd base].
   - repeat split; discriminate.
-  - repeat split; try discriminate. intros k. reflexivity.
+  - repeat split; try discriminate.
 Qed.
 
 Lemma reads_do_not_write s o : is_read o = true -> fst (step s o) = s.
